@@ -17,10 +17,11 @@ mcvars == <<vars, ctr, view, hist>>
 A == <<65>>  B == <<66, 98>>
 Addrs == {"10.1.1.1", "10.2.2.2"}
 
-Accounts == [g \in {"guest", "adm", "mute"} |->
+Accounts == [g \in {"guest", "adm", "mute", "mod"} |->
    CASE g = "guest" -> [pw |-> <<>>,  name |-> <<103>>, acc |-> {9, 10, 11, 26, 40}]
      [] g = "adm"   -> [pw |-> <<1>>, name |-> <<97>>,  acc |-> {9, 10, 11, 17, 22, 24, 26, 32, 40}]
-     [] g = "mute"  -> [pw |-> <<2>>, name |-> <<109>>, acc |-> {23}]]
+     [] g = "mute"  -> [pw |-> <<2>>, name |-> <<109>>, acc |-> {23}]
+     [] g = "mod"   -> [pw |-> <<3>>, name |-> <<111>>, acc |-> {10, 11, 22, 26, 40}]]   \* may disconnect (shown as admin) but may not read chat
 
 Init == /\ InitWith(Accounts, <<72, 105>>)
         /\ ctr = 0
@@ -38,30 +39,35 @@ LowestFree == CHOOSE c \in Conns : conn[c].ph = "free" /\ \A d \in Conns : conn[
 AnyFree == \E c \in Conns : conn[c].ph = "free"
 Chats == DOMAIN chats
 
-LoginVariants == IF Thin THEN {<<"", <<>>>>, <<"adm", <<1>>>>, <<"mute", <<2>>>>, <<"adm", <<2>>>>, <<"nobody", <<>>>>}
-                 ELSE {"", "adm", "mute", "nobody"} \X {<<>>, <<1>>, <<2>>}
+LoginVariants == IF Thin THEN {<<"", <<>>>>, <<"adm", <<1>>>>, <<"mute", <<2>>>>, <<"mod", <<3>>>>, <<"adm", <<2>>>>, <<"nobody", <<>>>>, <<"", <<5>>>>}
+                 ELSE {"", "adm", "mute", "mod", "nobody"} \X {<<>>, <<1>>, <<2>>, <<3>>, <<5>>}
 
 StepsOf(c) ==
   IF conn[c].ph = "open" THEN
        {[op |-> "login", c |-> c, login |-> v[1], pw |-> v[2], flow |-> f, name |-> A, icon |-> 1, id |-> NextId]
           : v \in LoginVariants, f \in {"old", "new"}}
+       \cup {[op |-> "loginbegin", c |-> c, login |-> v[1], pw |-> v[2], flow |-> f, name |-> A, icon |-> 1, id |-> -1]
+          : v \in {<<"", <<>>>>, <<"adm", <<1>>>>, <<"adm", <<2>>>>}, f \in {"old", "new"}}
        \cup (IF Thin THEN {} ELSE {[op |-> "close", c |-> c]})
+  ELSE IF conn[c].ph = "auth" THEN {[op |-> "loginend", c |-> c, id |-> NextId]}
+  ELSE IF conn[c].ph = "closing" THEN {[op |-> "closeend", c |-> c]}
   ELSE IF conn[c].ph = "in" THEN
        (IF ~conn[c].ready
           THEN {[op |-> "agreed", c |-> c, name |-> n, icon |-> 2, opts |-> o, auto |-> <<33>>] : n \in {A, B}, o \in IF Thin THEN {0, 7} ELSE {0, 1, 2, 4}}
           ELSE {[op |-> "setinfo", c |-> c, name |-> n, icon |-> 3, opts |-> o, auto |-> <<34>>] : n \in IF Thin THEN {B} ELSE {A, B}, o \in {-1, 0, 5}}
                \cup {[op |-> "userlist", c |-> c]})
-       \cup {[op |-> "close", c |-> c]}
+       \cup {[op |-> "close", c |-> c], [op |-> "closebegin", c |-> c]}
        \cup {[op |-> "chat", c |-> c, chat |-> k, msg |-> <<104>>, emote |-> e] : k \in {0} \cup Chats, e \in BOOLEAN}
-       \cup {[op |-> "invitenew", c |-> c, target |-> t] : t \in IF Len(chats) < MaxChats THEN Live \ {c} ELSE {}}
-       \cup {[op |-> "invite", c |-> c, chat |-> k, target |-> t] : k \in Chats, t \in Live \ {c}}
+       \cup {[op |-> "invitenew", c |-> c, target |-> t] : t \in IF Len(chats) < MaxChats THEN {d \in Live \ {c} : conn[d].ph = "in"} ELSE {}}
+       \cup {[op |-> "invite", c |-> c, chat |-> k, target |-> t] : k \in Chats, t \in {d \in Live \ {c} : conn[d].ph = "in"}}
        \cup {[op |-> o, c |-> c, chat |-> k] : o \in {"reject", "join", "leave"}, k \in Chats}
        \cup {[op |-> "subject", c |-> c, chat |-> k, subject |-> <<83>>] : k \in Chats}
        \cup {[op |-> "pm", c |-> c, target |-> t, msg |-> <<112>>] : t \in {d \in Conns \ {c} : conn[d].ph \in {"in", "closed"}}}
        \cup {[op |-> "broadcast", c |-> c, msg |-> <<98>>]}
        \cup {[op |-> "getinfo", c |-> c, target |-> t] : t \in Live}
-       \cup {[op |-> "setuser", c |-> c, login |-> l, name |-> <<120>>, acc |-> a] : l \in IF Thin THEN {"guest"} ELSE {"guest", "mute", "zz"}, a \in {{}, {9, 10, 22}}}
-       \cup {[op |-> "kick", c |-> c, target |-> t, ban |-> b] : t \in Live \ {c}, b \in {0, 1, 2}}
+       \cup {[op |-> "setuser", c |-> c, login |-> l, name |-> <<120>>, acc |-> a, pwset |-> ps, newpw |-> <<5>>]
+              : l \in IF Thin THEN {"guest"} ELSE {"guest", "mute", "zz"}, a \in {{}, {9, 10, 22}}, ps \in BOOLEAN}
+       \cup {[op |-> "kick", c |-> c, target |-> t, ban |-> b] : t \in {d \in Live \ {c} : conn[d].ph = "in"}, b \in {0, 1, 2}}
   ELSE {}
 
 GlobalSteps ==
@@ -93,7 +99,7 @@ Range(sq) == {sq[i] : i \in DOMAIN sq}
 
 Step(s) ==
   /\ Apply(s)
-  /\ ctr' = IF s.op = "login" /\ conn'[s.c].ph = "in" THEN NextCtr
+  /\ ctr' = IF s.op \in {"login", "loginend"} /\ conn'[s.c].ph = "in" THEN NextCtr
             ELSE IF s.op = "churn" THEN ctr + s.n ELSE ctr
   /\ view' = LET v1 == Fold(view, out')
              IN IF s.op = "userlist" THEN [v1 EXCEPT ![s.c] = [on |-> TRUE, s |-> Range(out'[1].users)]] ELSE v1
@@ -104,16 +110,16 @@ Next == \E s \in AllSteps : Step(s)
 Spec == Init /\ [][Next]_mcvars
 
 Bound == Len(hist) < MaxSteps
-View == <<accts, conn, chats, bans, ctr, view>>
+View == <<accts, conn, chats, bans, ctr, view, Len(hist)>>   \* the step count keeps the bounded search complete under VIEW
 
 (* C13: a client that folds the notifications it receives into the list it fetched has the current list *)
 (* "users who have completed login": connections of 1.5+ clients that have not yet sent Agreed are in the
    registry (and in fetched lists, with an empty name) but have not been announced; they are compared only
    once they are ready. *)
-Ready == {d \in Live : conn[d].ready}
+Ready == {d \in Live : conn[d].ready}   \* (a closing connection is still registered and listed)
 PendingIds == {conn[d].id : d \in Live \ Ready}
 Roster == {UserRec(d) : d \in Ready}
-RosterConverges == \A c \in Ready : view[c].on => {r \in view[c].s : r.uid \notin PendingIds} = Roster
+RosterConverges == \A c \in {d \in Ready : conn[d].ph = "in"} : view[c].on => {r \in view[c].s : r.uid \notin PendingIds} = Roster
 
 (* C13: what the registry hands out never collides with a live user *)
 FreshIdOnLogin == [][\A c \in Conns : conn[c].ph # "in" /\ conn'[c].ph = "in" => ~InUse(conn'[c].id)]_mcvars
